@@ -8,6 +8,8 @@ import (
 	"encoding/json"
 	"fmt"
 	"os"
+	"regexp"
+	"runtime/debug"
 	"sort"
 	"strconv"
 	"sync"
@@ -134,6 +136,8 @@ type Ctx struct {
 	tw       *bufio.Writer
 	retained map[string][]retainedOut
 	reuse    map[string][]byte
+
+	linePanics int
 }
 
 type retainedOut struct {
@@ -343,7 +347,7 @@ func (c *Ctx) Lines(fn func(raw []byte) error) error {
 		if rev {
 			kept = append(kept, append([]byte(nil), b...))
 		}
-		if err := fn(b); err != nil {
+		if err := c.guardedLine(fn, b); err != nil {
 			return err
 		}
 	}
@@ -353,7 +357,7 @@ func (c *Ctx) Lines(fn func(raw []byte) error) error {
 	arenaOn = rev && c.Opt("arena", "") == "1"
 	for i := len(kept) - 1; i >= 0; i-- {
 		arenaNewLine()
-		if err := fn(kept[i]); err != nil {
+		if err := c.guardedLine(fn, kept[i]); err != nil {
 			arenaOn = false
 			return err
 		}
@@ -459,6 +463,34 @@ func (c *Ctx) Close() error {
 }
 
 // Guard runs fn and converts a panic into an error string ("" if none).
+// guardedLine runs a driver's per-case function. A panic that escapes from the library on a case the driver did not expect to
+// fail is the library's behaviour on an in-domain input, not an infrastructure problem: it is recorded against the first library
+// function on the panicking stack and the replay goes on with the next case (three such panics end the driver normally).
+func (c *Ctx) guardedLine(fn func([]byte) error, b []byte) (err error) {
+	defer func() {
+		if r := recover(); r != nil {
+			site := "unknown"
+			if m := libFrame.FindStringSubmatch(string(debug.Stack())); m != nil {
+				site = m[1]
+			}
+			c.Fail(site, "panic-on-case", fmt.Sprint(r), map[string]interface{}{"case": trunc(string(b))})
+			c.mu.Lock()
+			c.linePanics++
+			n := c.linePanics
+			c.mu.Unlock()
+			if n >= 3 {
+				c.Set("stopped_after_panics", n)
+				c.Close()
+				os.Exit(0)
+			}
+			err = nil
+		}
+	}()
+	return fn(b)
+}
+
+var libFrame = regexp.MustCompile(`github\.com/TheManticoreProject/Manticore/([\w/.()*]+)\(`)
+
 func Guard(fn func()) (panicked string) {
 	defer func() {
 		if r := recover(); r != nil {
